@@ -6,6 +6,7 @@ package harness
 // with a reference model of findBug/checkTB (two counters, the 10*N budget, the verdict).
 
 import (
+	"flag"
 	"fmt"
 	"os"
 	"path/filepath"
@@ -308,6 +309,61 @@ func c09Units(tier string, seed int64) []Unit {
 			}})
 		}
 	}
+	// several Checks in one process with the flags set once (the way a test binary runs): every one of them
+	// does the promised amount of work - nothing a Check does changes what the next one promises
+	units = append(units, Unit{Name: "C09/consecutive-checks-in-one-process", Run: func(c *Ctx) {
+		for _, short := range []bool{false, true} {
+			for _, n := range []int{5, 10, 50} {
+				promised := n
+				if short {
+					promised = n / 5
+				}
+				var counts []int
+				for k := 0; k < 5; k++ {
+					prog := uniqueProg(BPass)
+					env := NewEnv(nil, prog.Base)
+					cfg := Config{Checks: n, Seed: uint64(seed)*7 + uint64(k) + 1, ShrinkMS: 5, NoFailFile: true, Name: "TestC09seq", Short: short, KeepFlags: k > 0}
+					if k > 0 {
+						flag.Set("rapid.seed", fmt.Sprint(cfg.Seed)) // the seed is not what is being examined
+						flag.Set("test.short", fmt.Sprint(short))
+					}
+					log := RunCheck(prog, env, cfg)
+					c.R.Evals++
+					c.R.States++
+					c.R.Transitions += int64(len(env.Invs))
+					counts = append(counts, len(env.Invs))
+					if v := log.Verdict(); v.Class != "ok" || v.Passed != promised || len(env.Invs) != promised {
+						c.Violate(Violation{Sig: fmt.Sprintf("C09 later-check-does-less-work short=%v", short),
+							Detail: fmt.Sprintf("-rapid.checks=%d -short=%v, Check number %d in the process: %d invocations, report %s passed=%d; promised %d (invocation counts so far %v)", n, short, k+1, len(env.Invs), v.Class, v.Passed, promised, counts),
+							Replay: map[string]any{"engine": "check-sequence", "checks": n, "short": short, "k": k}})
+						break
+					}
+				}
+				c.Outcome(fmt.Sprintf("n=%d short=%v %v", n, short, counts), true)
+				flag.Set("test.short", "false")
+			}
+		}
+	}})
+	// never vacuous: whatever -short does to the number of cases, a Check that was asked for at least one
+	// case and reports OK has run the property at least once
+	units = append(units, Unit{Name: "C09/short-with-few-checks-is-not-vacuous", Run: func(c *Ctx) {
+		for _, n := range []int{1, 2, 3, 4, 5, 6, 9} {
+			for _, base := range []Beh{BPass, BSkip} {
+				prog := uniqueProg(base)
+				env := NewEnv(nil, prog.Base)
+				log := RunCheck(prog, env, Config{Checks: n, Seed: uint64(seed)*11 + uint64(n), ShrinkMS: 5, NoFailFile: true, Name: "TestC09few", Short: true})
+				c.R.Evals++
+				c.R.States++
+				c.R.Transitions += int64(len(env.Invs))
+				v := log.Verdict()
+				c.Outcome(fmt.Sprintf("n=%d base=%s %s passed=%d invs=%d", n, base, v.Class, v.Passed, len(env.Invs)), true)
+				if v.Class == "ok" && (len(env.Invs) == 0 || v.Passed == 0) {
+					c.Violate(Violation{Sig: "C09 vacuous-pass-under-short", Detail: fmt.Sprintf("-rapid.checks=%d -short, property that always %s: Check reports OK, passed %d tests after %d invocations of the property", n, base, v.Passed, len(env.Invs)),
+						Replay: map[string]any{"engine": "check", "checks": n, "short": true, "base": base.String()}})
+				}
+			}
+		}
+	}})
 	units = append(units, checkWrapUnit())
 	return units
 }
